@@ -231,8 +231,53 @@ def amended_output_case(mode: str):
     return found
 
 
+def api_need_oracle(ctx):
+    """The need a plan writes is the need the director is asked to record: `optional=True` arrives as OPTIONAL,
+    `plan()` / `call(planning=True)` / `script()` as PLAN, everything else as DEFAULT, for every API function."""
+    import apicap
+    from stepup.core.enums import Need
+
+    wrappers = {
+        "step": (lambda api, opt: api.step("true", need=Need.OPTIONAL if opt else Need.DEFAULT), None),
+        "run": (lambda api, opt: api.run("./tool.py arg", optional=opt), None),
+        "call": (lambda api, opt: api.call("./tool.py", "fn", optional=opt), None),
+        "copy": (lambda api, opt: api.copy("src.txt", "dst/", optional=opt), None),
+        "render_jinja": (lambda api, opt: api.render_jinja("tmpl.txt", "vars.json", "out.txt", optional=opt), None),
+        "plan": (lambda api, opt: api.plan("./tool.py arg"), Need.PLAN),
+        "call-planning": (lambda api, opt: api.call("./tool.py", "fn", planning=True), Need.PLAN),
+        "script": (lambda api, opt: api.script("./tool.py", optional=opt), Need.PLAN),
+    }
+    with apicap.project() as base:
+        for wname, (fn, fixed) in sorted(wrappers.items()):
+            for opt in (False, True):
+                with apicap.step_process(base) as (api, client):
+                    try:
+                        fn(api, opt)
+                    except Exception as exc:  # noqa: BLE001
+                        ctx.finding(Finding(PID, f"need-lost-in-api:{wname}:raises", f"{wname}(optional={opt}) raises {exc!r}",
+                                            {"wrapper": wname, "optional": opt}))
+                        continue
+                call = client.last("define_step")
+                expected = fixed if fixed is not None else (Need.OPTIONAL if opt else Need.DEFAULT)
+                sent = None if call is None else (call[1][7] if len(call[1]) > 7 else call[2].get("need"))
+                ctx.stats.count(f"api-need:{wname}")
+                ctx.stats.case(("api-need", wname, opt))
+                if wname == "script" and call is not None and (" --optional" in str(call[1][1])) != opt:
+                    # the plan stage is always PLAN; the option travels in the command of the plan stage
+                    ctx.finding(Finding(PID, "need-lost-in-api:script:option",
+                                        f"script(optional={opt}) plans with the command {call[1][1]!r}",
+                                        {"wrapper": wname, "optional": opt, "command": str(call[1][1])}))
+                if sent != expected.value:
+                    ctx.finding(Finding(PID, f"need-lost-in-api:{wname}",
+                                        f"{wname}(optional={opt}) reaches the director as define_step(need={sent}); "
+                                        f"expected {expected.name} = {expected.value}",
+                                        {"wrapper": wname, "optional": opt, "sent": sent, "expected": expected.value}))
+
+
 async def search(ctx):
     import asyncio as _asyncio
+
+    api_need_oracle(ctx)
 
     for mode in ("optional", "target"):
         for sig, what, extra in await _asyncio.to_thread(amended_output_case, mode):
